@@ -521,16 +521,18 @@ pub fn fetch(fetch_id: u64, name: &str, pinned: &Pinned) -> Result<PathBuf> {
         let id = git2::Oid::from_str(&pinned.commit_hash)?;
         repo.set_head_detached(id)?;
 
-        // If the directory exists, remove it. Note that we already check for an existing,
-        // cached checkout directory for re-use prior to reaching the `fetch` function.
-        if path.exists() {
-            let _ = fs::remove_dir_all(&path);
+        // Checkout into a sibling directory first and move it into place once it is complete.
+        // An existing `path` is taken to be a complete checkout, so a fetch that is interrupted
+        // or fails half way must never leave anything there.
+        let tmp_path = path.with_extension(format!("tmp-{fetch_id:x}"));
+        if tmp_path.exists() {
+            let _ = fs::remove_dir_all(&tmp_path);
         }
-        fs::create_dir_all(&path)?;
+        fs::create_dir_all(&tmp_path)?;
 
-        // Checkout HEAD to the target directory.
+        // Checkout HEAD to the temporary directory.
         let mut checkout = git2::build::CheckoutBuilder::new();
-        checkout.force().target_dir(&path);
+        checkout.force().target_dir(&tmp_path);
         repo.checkout_head(Some(&mut checkout))?;
 
         // Fetch HEAD time and create an index
@@ -547,9 +549,16 @@ pub fn fetch(fetch_id: u64, name: &str, pinned: &Pinned) -> Result<PathBuf> {
 
         // Write the index file
         fs::write(
-            path.join(".forc_index"),
+            tmp_path.join(".forc_index"),
             serde_json::to_string(&source_index)?,
         )?;
+
+        // If the directory exists, remove it. Note that we already check for an existing,
+        // cached checkout directory for re-use prior to reaching the `fetch` function.
+        if path.exists() {
+            let _ = fs::remove_dir_all(&path);
+        }
+        fs::rename(&tmp_path, &path)?;
         Ok(())
     })?;
     Ok(path)
